@@ -1,6 +1,7 @@
 package main
 
 import (
+	"strings"
 	"verif/internal/effects"
 	"verif/internal/kinds"
 	"verif/internal/load"
@@ -213,5 +214,69 @@ func init() {
 				c.Add(effects.TreeReadonly(w, "pkg/visitor/printer", "pkg/visitor/dumper", "pkg/visitor/traverser", "pkg/visitor/nsresolver", "pkg/visitor"))
 			}
 		},
+	}
+}
+
+// idxSafePkgs: the packages rule idx-safe covers (everything hand-written outside the scanner, which idx-guard covers).
+var idxSafePkgs = []string{"pkg/visitor/printer", "pkg/visitor/dumper", "pkg/visitor/formatter", "pkg/visitor/traverser", "pkg/visitor/nsresolver", "pkg/visitor", "pkg/errors", "pkg/position", "pkg/token", "pkg/version", "pkg/parser", "pkg/conf", "pkg/ast", "internal/position", "internal/php5", "internal/php7", "cmd/php-parser"}
+
+// idxSafeReviewed: sites whose safety rests on an invariant the prover does not derive (one construct each).
+var idxSafeReviewed = map[string]string{
+	"pkg/visitor/formatter/insert/s2[k + len(vs):]": "insert has one caller, formatStmts, which passes k = i+insertCounter with i < the original length and insertCounter = the number of elements inserted so far, so 0 <= k <= len(s); the loop invariant len(*list) = original + insertCounter is not linear in the prover's facts",
+	"pkg/visitor/formatter/insert/s2[k:]":           "as above: 0 <= k <= len(s) <= len(s2)",
+	"pkg/visitor/formatter/insert/s[:k]":            "as above: 0 <= k <= len(s)",
+	"pkg/visitor/formatter/insert/s[k:]":            "as above: 0 <= k <= len(s)",
+	"pkg/visitor/nsresolver/NamespaceResolver.AddAlias/useNameParts[len(useNameParts) - 1]": "Parts of an ast.Name is never empty in a parsed tree: both grammars build every name list from at least one T_STRING (namespace_name: T_STRING | namespace_name T_NS_SEPARATOR T_STRING); hand-built trees with an empty name are outside the property",
+	"pkg/visitor/nsresolver/Namespace.ResolveAlias/nameParts[0]":                            "as above: Name.Parts is non-empty in every parsed tree",
+	"pkg/token/Pool.Get/p.block[p.off - 1]":    "decided exactly by rule pool-typestate (zone domain over off and len(block))",
+	"pkg/position/Pool.Get/p.block[p.off - 1]": "decided exactly by rule pool-typestate",
+	"pkg/token/ID.String/_ID_name[_ID_index[i]:_ID_index[i + 1]]": "the bounds are table entries: rule token-names checks every entry of _ID_index against len(_ID_name) and their order; the two inner index expressions are proved here from the range guard",
+}
+
+func (c *Ctx) idxSafe(rels ...string) {
+	if len(rels) == 0 {
+		rels = idxSafePkgs
+	}
+	c.Fixture("mini", "idx-safe", false, func(p *load.Program, tb *kinds.Table) *report.RuleResult {
+		r := small.IdxSafe(p, []string{"pkg/idxok"}, map[string]string{})
+		r.Merge(small.IdxSafe(p, []string{"pkg/idxbad"}, map[string]string{}), "bad:")
+		return r
+	})
+	// the reviewed exceptions that belong to the packages asked for (owner = the longest covered package path that prefixes the key)
+	rev := map[string]string{}
+	for k, v := range idxSafeReviewed {
+		owner := ""
+		for _, rel := range idxSafePkgs {
+			if strings.HasPrefix(k, rel+"/") && len(rel) > len(owner) {
+				owner = rel
+			}
+		}
+		for _, rel := range rels {
+			if rel == owner {
+				rev[k] = v
+			}
+		}
+	}
+	if p, _, ok := c.RepoProgram(false); ok {
+		c.Add(small.IdxSafe(p, rels, rev))
+	}
+}
+
+func init() {
+	properties["IX"] = &Property{Level: "other", Engine: "small", Run: func(c *Ctx) { c.idxSafe() }}
+}
+
+// addIdxSafe extends property id with rule idx-safe over the given packages.
+func addIdxSafe(id string, what string, min int, rels ...string) {
+	p := properties[id]
+	run := p.Run
+	p.Explanation += " idx-safe (" + strings.Join(rels, ", ") + "): every index and slice expression on a slice, array or string is implied in range by the conditions that dominate it (linear prover; facts from guards, early returns, loop and range bounds, make/append/reslice lengths, and the derived invariant that a slice field only ever assigned nil or a non-empty slice is non-empty when non-nil); reviewed exceptions are listed with the invariant they rest on."
+	if !strings.Contains(p.Technique, "linear bound proving") {
+		p.Technique += "; linear bound proving of index/slice sites"
+	}
+	p.Floors = append(p.Floors, report.Floor{Rule: "idx-safe", What: what, Min: min})
+	p.Run = func(c *Ctx) {
+		run(c)
+		c.idxSafe(rels...)
 	}
 }
